@@ -237,7 +237,10 @@ Definition smon_step (m : smon) (e : event) : option smon :=
     else Some {| s_act := a'; s_counts := s_counts m; s_anchor := s_anchor m |}
   | Sn s _ _ => Some {| s_act := a'; s_counts := cnt_bump s (s_counts m); s_anchor := None |}
   | Nm _ => Some {| s_act := a'; s_counts := s_counts m; s_anchor := None |}
-  | ObA true _ stamp =>
+  | ObA _ _ stamp =>
+    (* the identity of the file is evidence also when the read raced with other
+       journal records: it was read after the flush returned, and a scan or
+       lifecycle call recorded before it has dropped the anchor already *)
     match s_anchor m with
     | Some None => Some {| s_act := a'; s_counts := s_counts m; s_anchor := Some (Some stamp) |}
     | Some (Some s0) => if Nat.eqb s0 stamp then Some m else None
